@@ -557,6 +557,18 @@ def r43(ctx: Ctx) -> RuleReport:
     cfg = CFG(fi.node)
     raises = [nd.id for nd in cfg.nodes if nd.kind == 'stmt' and isinstance(nd.ast, ast.Raise)]
     if not raises:
+        # no re-raise of its own: the one-argument next(<source>) under "nothing is buffered" lets the source's StopIteration pass
+        from ..resolve import facts_ex as _fx43
+        pm43 = ctx.repo.parent_map(fi.node)
+        for c in walk_local(fi.node):
+            if isinstance(c, ast.Call) and isinstance(c.func, ast.Name) and c.func.id == 'next' and len(c.args) == 1 and not c.keywords:
+                fx = {(f.replace(' ', ''), pol) for f, pol in _fx43(ctx, fi, c)}
+                if ('self._nextisNone', True) in fx or ('self._nextisnotNone', False) in fx:
+                    st = c
+                    while not isinstance(st, ast.stmt):
+                        st = pm43[id(st)]
+                    raises = [cfg.node_of(st)]
+    if not raises:
         rep.oblige('next() re-raises StopIteration when already exhausted', False,
                    'no raise statement: exhaustion would return None', fi.loc(), key='next re-raises')
         return rep
@@ -778,6 +790,15 @@ def r41(ctx: Ctx) -> RuleReport:
     _ch = _colon_helpers(ctx)
     uses = any(isinstance(n, ast.Call) and isinstance(n.func, ast.Name) and n.func.id in _ch
                for n in walk_local(gi.node))
+    if not uses:
+        # through a module-level helper the constructor maps over the triples
+        for f_ in local_callees(ctx, gi, depth=1):
+            if f_.fq != gi.fq and f_.module.name == gi.module.name and any(isinstance(n, ast.Call) and isinstance(n.func, ast.Name) and n.func.id in _ch for n in walk_local(f_.node)):
+                uses = True
+        for n in walk_local(gi.node):
+            if isinstance(n, ast.Call) and norm(n.func) == 'map' and n.args and isinstance(n.args[0], ast.Name) and n.args[0].id in gi.module.functions \
+                    and any(isinstance(x, ast.Call) and isinstance(x.func, ast.Name) and x.func.id in _ch for x in walk_local(gi.module.functions[n.args[0].id].node)):
+                uses = True
     rep.oblige('Graph.__init__ normalises roles through _ensure_colon', uses, '', gi.loc(), key='Graph normalises colon')
     return rep
 
@@ -872,6 +893,11 @@ def r69(ctx: Ctx) -> RuleReport:
             if isinstance(nd.ast, ast.Assign) and isinstance(nd.ast.targets[0], ast.Tuple) and len(nd.ast.targets[0].elts) == 3 \
                     and isinstance(val, ast.Call) and isinstance(val.func, ast.Attribute) and val.func.attr in ('partition', 'rpartition'):
                 skip.add(norm(nd.ast.targets[0].elts[1]))          # the separator itself is structure, not content
+            if isinstance(nd.ast, ast.Assign) and isinstance(nd.ast.targets[0], ast.Tuple) and len(nd.ast.targets[0].elts) == 2 \
+                    and isinstance(nd.ast.targets[0].elts[0], ast.Name) and isinstance(nd.ast.targets[0].elts[1], ast.Starred) \
+                    and isinstance(val, ast.Call) and isinstance(val.func, ast.Attribute) and val.func.attr in ('split', 'rsplit') and val.args \
+                    and try_fold(val.args[0]) == (True, '::'):
+                skip.add(nd.ast.targets[0].elts[0].id)             # head, *fields = text.split('::'): what stands in front of the first "::" belongs to no field
             for name in sorted(assigned_names(nd.ast) - skip):
                 def uses(n2, name=name):
                     if n2.ast is None or n2.id == nd.id:
